@@ -105,6 +105,22 @@ func (u *Unit) call(st *State, x *ast.CallExpr) *Val {
 	if fn != nil && !hasModel && recv != nil && recvExpr != nil && kindOf(recv.T) == kStruct {
 		if sig := fn.Type().(*types.Signature); sig.Recv() != nil {
 			if _, ptrRecv := types.Unalias(sig.Recv().Type()).(*types.Pointer); ptrRecv {
+				if id, ok := ast.Unparen(recvExpr).(*ast.Ident); ok {
+					// x.M() with x a local struct and M on *T: the call takes &x, so x lives in the heap from here on
+					if obj, isVar := u.info.Uses[id].(*types.Var); isVar && !(obj.Pkg() != nil && obj.Parent() == obj.Pkg().Scope()) {
+						pt := types.NewPointer(recv.T)
+						r, esc := st.escaped[obj]
+						if !esc {
+							r = u.alloc(st)
+							u.storeStruct(st, r, pt, recv)
+							if st.escaped == nil {
+								st.escaped = map[types.Object]string{}
+							}
+							st.escaped[obj] = r
+						}
+						recv = &Val{T: pt, S: r}
+					}
+				}
 				if se, ok := ast.Unparen(recvExpr).(*ast.SelectorExpr); ok {
 					pt := types.NewPointer(recv.T)
 					inner := u.d.fun("interior!"+typeKey(recv.T), []string{SInt}, SInt)
@@ -282,7 +298,7 @@ var purePrefixes = []string{
 	"(error).", "net/http.StatusText", "net/http.NewRequestWithContext", "net/http.NewRequest", "(io.Closer).Close", "(io.ReadCloser).Close", "(*strings.Builder).", "regexp.", "(*regexp.Regexp).", "os.Getenv", "encoding/json.Marshal", "encoding/json.Valid",
 	"(*github.com/thushan/olla/internal/adapter/stats.", "github.com/thushan/olla/internal/util.", "github.com/thushan/olla/internal/version.", "(reflect.", "reflect.",
 	"(*github.com/json-iterator/go.", "github.com/json-iterator/go.", "github.com/tidwall/gjson.", "(github.com/tidwall/gjson.Result).",
-	"(*sync.WaitGroup).", "(*sync.Pool).", "(*sync.Map).", "bufio.", "(*bufio.Scanner).", "(*bufio.Reader).", "net/http.NewResponseController", "(*net/http.Request).Context", "(*net/http.Request).WithContext", "(*net/http.Request).UserAgent", "github.com/thushan/olla/internal/app/middleware.GetLogger", "github.com/thushan/olla/internal/app/middleware.GetRequestID", "github.com/thushan/olla/internal/app/middleware.FormatBytes", "(*github.com/thushan/olla/pkg/pool.Pool).", "(*golang.org/x/time/rate.Reservation).OK", "(*golang.org/x/time/rate.Reservation).Delay", "golang.org/x/time/rate.NewLimiter", "runtime.", "(*time.Timer).", "(*time.Ticker).", "io.", "(*bytes.Buffer).", "(*bytes.Reader).",
+	"(*sync.WaitGroup).", "(*sync.Pool).", "(*sync.Map).", "encoding/json.NewDecoder", "(*encoding/json.Decoder).", "encoding/json.Marshal", "bufio.", "(*bufio.Scanner).", "(*bufio.Reader).", "net/http.NewResponseController", "(*net/http.Request).Context", "(*net/http.Request).WithContext", "(*net/http.Request).UserAgent", "github.com/thushan/olla/internal/app/middleware.GetLogger", "github.com/thushan/olla/internal/app/middleware.GetRequestID", "github.com/thushan/olla/internal/app/middleware.FormatBytes", "(*github.com/thushan/olla/pkg/pool.Pool).", "(*golang.org/x/time/rate.Reservation).OK", "(*golang.org/x/time/rate.Reservation).Delay", "golang.org/x/time/rate.NewLimiter", "runtime.", "(*time.Timer).", "(*time.Ticker).", "io.", "(*bytes.Buffer).", "(*bytes.Reader).",
 }
 
 func (u *Unit) isPure(fn *types.Func) bool {
